@@ -234,7 +234,7 @@ func (p *Program) Named(rel, name string) *types.Named {
 		return nil
 	}
 
-	n, _ := obj.Type().(*types.Named)
+	n, _ := types.Unalias(obj.Type()).(*types.Named)
 
 	return n
 }
